@@ -16,6 +16,9 @@ open CV CV.TypeDesc CV.Marshal CV.Encode CV.Decode CV.Generic
 structure Leaves where
   names : List String
   ok : String → Val → Prop
+  /-- nesting depth (fuel) the leaf codecs need below the named type itself: 0 for a hand-written marshaller, the depth
+      of the underlying type expression for a named type rendered by the default encoders (`map[string]*string`: 3) -/
+  depth : Nat := 0
 
 def plainB (env : Env) (fmt : Fmt) (lv : List String) : Nat → TyExpr → Bool
   | 0, _ => false
@@ -51,7 +54,7 @@ def Stable (env : Env) (fmt : Fmt) (L : Leaves) : Nat → TyExpr → Val → Pro
   | f + 1, .slice e, v => ∃ xs, v = .seq xs ∧ xs ≠ [] ∧ ∀ x ∈ xs, Stable env fmt L f e x
   | f + 1, .map e, v => ∃ kvs, v = .map kvs ∧ kvs ≠ [] ∧ ∀ p ∈ kvs, Stable env fmt L f e p.2
   | f + 1, .named n, v =>
-    if L.names.contains n then L.ok n v ∧ v ≠ .null else
+    if L.names.contains n then L.depth ≤ f ∧ L.ok n v ∧ v ≠ .null else
     match findStruct env.structs n with
     | some s => ∃ vals : FieldDesc → Val,
         v = .map ((s.fields.filter rendered).map fun fd => (fd.goName, vals fd)) ∧
@@ -67,8 +70,8 @@ def Stable (env : Env) (fmt : Fmt) (L : Leaves) : Nat → TyExpr → Val → Pro
 def RT (env : Env) (fmt : Fmt) (f : Nat) (ty : TyExpr) (v : Val) : Prop :=
   ∃ t, encode env fmt f ty v = .ok t ∧ decode env f ty t = .ok v ∧ (v ≠ .null → t ≠ .null)
 
-/-- every leaf has a round trip of its own on its `ok` values, at any nesting depth -/
+/-- every leaf has a round trip of its own on its `ok` values, at any nesting depth from `L.depth` on -/
 def LeafSound (env : Env) (fmt : Fmt) (L : Leaves) : Prop :=
-  ∀ n, L.names.contains n = true → ∀ (f : Nat) (v : Val), L.ok n v → v ≠ .null → RT env fmt (f + 1) (.named n) v
+  ∀ n, L.names.contains n = true → ∀ (f : Nat) (v : Val), L.depth ≤ f → L.ok n v → v ≠ .null → RT env fmt (f + 1) (.named n) v
 
 end CV.GenericF
